@@ -48,10 +48,20 @@ func opVersionPair(t Task) Result {
 	return res
 }
 
+// version_str: parses the string twice; what the caller does with the first result (its fields are exported) must not show
+// in the second, nor in a parse done afterwards with an explicit version.
 func opVersionStr(t Task) Result {
 	v, err := version.New(tStr(t, "s"))
 	if err != nil {
 		return Result{"ok": false}
 	}
-	return Result{"ok": true, "maj": v.Major, "min": v.Minor}
+	res := Result{"ok": true, "maj": v.Major, "min": v.Minor}
+	v.Major, v.Minor = v.Major+1000, v.Minor+7
+	w, err2 := version.New(tStr(t, "s"))
+	if err2 != nil {
+		res["again_ok"] = false
+	} else {
+		res["again_ok"], res["again_maj"], res["again_min"] = true, w.Major, w.Minor
+	}
+	return res
 }
